@@ -176,7 +176,8 @@ func genReq(r *mon.Rand, i int, rawOnly bool) *areq {
 		a.Fields = map[string]string{"k": "v w", "z": "&=", "e": ""}
 	case "multipart":
 		a.Fields = map[string]string{"f1": "field one", "f2": "a&b=c"}
-		a.Files = map[string]string{"up": string(wire.PosBody(i, r.Int(0, 10, 5000)))}
+		// file sizes around the 512-byte content-type sniffing buffer too
+		a.Files = map[string]string{"up": string(wire.PosBody(i, r.Int(0, 10, 5000, 511, 512, 513, 1024, 70000)))}
 	}
 	return a
 }
@@ -214,7 +215,16 @@ func (a *areq) build(r *mon.Rand, req *protocol.Request) {
 	case "multipart":
 		req.SetMultipartFormData(a.Fields)
 		for p, content := range a.Files {
-			req.SetFileReader(p, p+".txt", strings.NewReader(content))
+			// the file comes from a reader that fills buffers, or from one with short
+			// reads (a pipe, a relayed body), possibly tiny ones
+			switch r.Intn(3) {
+			case 0:
+				req.SetFileReader(p, p+".txt", strings.NewReader(content))
+			case 1:
+				req.SetFileReader(p, p+".txt", &shortReader{[]byte(content), r.Fork()})
+			default:
+				req.SetFileReader(p, p+".txt", io.MultiReader(strings.NewReader(content[:len(content)/3]), &shortReader{[]byte(content[len(content)/3:]), r.Fork()}))
+			}
 		}
 	}
 }
